@@ -56,3 +56,14 @@ package ext
 //@   ensures s.ErrorCount >= old(s.ErrorCount)
 //@ func (*Scanner).TokenText
 //@   trusted
+
+//@ package path/filepath
+//@ func Join
+//@   trusted
+//@ func Base
+//@   trusted
+//@ package os
+//@ func Stat
+//@   trusted
+//@ func IsNotExist
+//@   trusted
